@@ -59,7 +59,12 @@ def call_source(s: Script, name: str, c: dict) -> str:
         if a[0] != NONE:
             f = _freq(s, a[0], 0)
             parts.append(f"frequency={f}" if kw else f)
-        parts += [f"on_ms={s.val(a[1])}", f"off_ms={s.val(a[2])}", f"times={s.val(a[3])}"]
+        # an argument that has its documented default (on_ms=100, off_ms=100, times=1) is left out in every second rendering
+        # (which ones: decided by the call's own arguments), so gaps are also given one at a time
+        omit = (sum(abs(int(x)) for x in a[1:]) + (0 if a[0] == NONE else 1)) % 2 == 0
+        for pname, v, dflt in (("on_ms", a[1], 100), ("off_ms", a[2], 100), ("times", a[3], 1)):
+            if not (omit and v == dflt):
+                parts.append(f"{pname}={s.val(v)}")
         return f"{name}.beep({', '.join(parts)})"
     if act == "sweep":
         f0, f1 = _freq(s, a[0], 0), _freq(s, a[1], 1)
@@ -68,9 +73,11 @@ def call_source(s: Script, name: str, c: dict) -> str:
             return f"{name}.sweep(start_hz={f0}, end_hz={f1}, duration_ms={d}, steps={k})"
         return f"{name}.sweep({f0}, {f1}, duration_ms={d}, steps={k})"
     if act == "melody":
+        m = c["m"]                    # the name of a tune is not case sensitive: "Siren", "SUCCESS", "Scale_C" name the same tunes
+        m = [m, m.capitalize(), m.upper(), m.title()][(len(m) + (0 if a[0] == NONE else abs(int(a[0])))) % 4]
         if a[0] == NONE:
-            return f'{name}.melody("{c["m"]}")'
-        return f'{name}.melody("{c["m"]}", tempo={s.val(a[0])})'
+            return f'{name}.melody("{m}")'
+        return f'{name}.melody("{m}", tempo={s.val(a[0])})'
     raise AssertionError(act)
 
 
